@@ -134,6 +134,29 @@ def d2_stale(ctx, obs):
             for t in tg:
                 if isinstance(t, ast.Subscript) and ('Obs' == unparse(t.value).split('.')[0].split('(')[-1] or unparse(t.value).startswith('getattr(Obs')):
                     writes.append(t)
+    # in-place mutation of class-level containers, directly or through a local alias
+    MUT = {'setdefault', 'update', 'pop', 'popitem', 'clear', 'append', 'extend', '__setitem__'}
+
+    def is_class_state(e, aliases):
+        if isinstance(e, ast.Call) and call_name(e) == 'getattr' and e.args and unparse(e.args[0]) == 'Obs':
+            return True
+        if isinstance(e, ast.Attribute) and isinstance(e.value, ast.Name) and e.value.id == 'Obs' and ('_dict' in e.attr or '_global' in e.attr):
+            return True
+        if isinstance(e, ast.Name) and e.id in aliases:
+            return True
+        return False
+    for q_, fn_ in obs.functions():
+        aliases = set()
+        for st in statements(fn_, skip_nested_defs=False):
+            if isinstance(st, ast.Assign) and len(st.targets) == 1 and isinstance(st.targets[0], ast.Name) and is_class_state(st.value, set()):
+                aliases.add(st.targets[0].id)
+        for n in walk(fn_, skip_nested_defs=False):
+            if isinstance(n, ast.Call) and isinstance(n.func, ast.Attribute) and n.func.attr in MUT and is_class_state(n.func.value, aliases):
+                writes.append(n)
+            if isinstance(n, (ast.Assign, ast.AugAssign)):
+                for t in (n.targets if isinstance(n, ast.Assign) else [n.target]):
+                    if isinstance(t, ast.Subscript) and is_class_state(t.value, aliases) and t not in writes:
+                        writes.append(t)
     for n in reads:
         q = obs.enclosing_qualname(n)
         ctx.check(rule, 'obs.py:%s#class-default-read' % q, q == 'Obs.gamma_method._parse_kwarg',
@@ -583,6 +606,7 @@ SELFTEST = [
     ('reset-removed-rho', 'pyerrors/obs.py', "        self.e_rho = {}\n        self.e_drho = {}\n        self._dvalue = 0", "        self.e_rho = getattr(self, 'e_rho', {})\n        self.e_drho = {}\n        self._dvalue = 0", 'C03-D2'),
     ('precedence-swapped', 'pyerrors/obs.py', "            if kwarg_name in kwargs:\n                tmp = kwargs.get(kwarg_name)", "            if kwarg_name in kwargs and not getattr(Obs, kwarg_name + '_dict'):\n                tmp = kwargs.get(kwarg_name)", None),
     ('class-default-written', 'pyerrors/obs.py', "        _parse_kwarg('S')\n", "        _parse_kwarg('S')\n        Obs.S_dict[self.names[0]] = self.S[self.e_names[0]]\n", 'C03-D2'),
+    ('class-dict-setdefault', 'pyerrors/obs.py', "                    if e_name in getattr(Obs, kwarg_name + '_dict'):\n                        getattr(self, kwarg_name)[e_name] = getattr(Obs, kwarg_name + '_dict')[e_name]\n                    else:\n                        getattr(self, kwarg_name)[e_name] = getattr(Obs, kwarg_name + '_global')", "                    getattr(self, kwarg_name)[e_name] = getattr(Obs, kwarg_name + '_dict').setdefault(e_name, getattr(Obs, kwarg_name + '_global'))", 'C03-D2'),
     ('derived-reads-analysis', 'pyerrors/obs.py', "    reweighted = len(list(filter(lambda o: o.reweighted is True, raveled_data))) > 0\n", "    reweighted = len(list(filter(lambda o: o.reweighted is True, raveled_data))) > 0\n    if all(hasattr(o, 'e_dvalue') for o in raveled_data):\n        kwargs.pop('num_grad', None)\n", 'C03-D5'),
     ('tauint-clamp-removed', 'pyerrors/obs.py', "self.e_n_tauint[e_name][self.e_n_tauint[e_name] <= 0.5] = 0.5 + np.finfo(np.float64).eps", "self.e_n_tauint[e_name][self.e_n_tauint[e_name] <= 0.25] = 0.25 + np.finfo(np.float64).eps", 'C03-D6'),
     ('gap-not-min', 'pyerrors/obs.py', "gaps.append(np.min(np.diff(o.idl[r_name])))", "gaps.append(np.min(o.idl[r_name]))", 'C03-D4'),
